@@ -636,3 +636,108 @@ def r_arg_order(F, V):
     R.info["call sites of crate functions with two or more parameters"] = n
     R.floor("call sites examined", n, 300)
     return R
+
+
+# --------------------------------------------------------------------- R-ZST-DROP
+
+DROP_SITES = ("core::ptr::drop_in_place", "raw::Bucket::drop", "raw::RawTableInner::drop_elements", "raw::RawIter::drop_elements",
+              "raw::RawTableInner::drop_inner_table", "core::mem::drop")
+
+
+def r_zst_drop(F, V):
+    """Zero-sized element types can implement Drop (tokens, guards): their destructors run like any other's.
+    (1) SizedTypeProperties::NEEDS_DROP is mem::needs_drop::<Self>() and nothing else; (2) no destructor site, and no
+    construction of the drop function handed to the in-place rehash, is control dependent on IS_ZERO_SIZED / size_of."""
+    R = Result("R-ZST-DROP", F.cfg)
+    n = 0
+    cb = F.bodies.get("raw::SizedTypeProperties::NEEDS_DROP")
+    if cb is None:
+        R.undec("the constant raw::SizedTypeProperties::NEEDS_DROP has no extracted body")
+    else:
+        n += 1
+        key = "raw::SizedTypeProperties::NEEDS_DROP|definition"
+        callees = [(callee_path(t) or "") for i, t in cb.calls()]
+        switches = [i for i in cb.normal if cb.term(i)["k"] == "switch"]
+        others = [c for c in callees if not c.endswith("mem::needs_drop")]
+        mentions_zst = any(o["k"] == "const" and "IS_ZERO_SIZED" in str(o.get("def", "")) for i, k, s in cb.stmts() if s["k"] == "assign" for o in rv_operands(s["rv"])) \
+            or any(c.endswith("size_of") for c in callees)
+        if any(c.endswith("mem::needs_drop") for c in callees) and not switches and not others and not mentions_zst:
+            R.inst(key, "NEEDS_DROP = mem::needs_drop::<Self>()", "ok", True, where(cb))
+        else:
+            R.violation(key, cb, "NEEDS_DROP is not exactly mem::needs_drop::<Self>() (callees %s, branches %d, mentions the size: %s): every bulk destructor path (table drop, clear, drain, into_iter, "
+                        "the rehash guard) is gated on it, so elements of a type it wrongly excludes - e.g. zero-sized types with a Drop impl - are never dropped" % (sorted(set(callees)), len(switches), mentions_zst))
+            R.inst(key, "NEEDS_DROP altered", "violation", True, where(cb))
+
+    def zst_switch(b, i):
+        t = b.term(i)
+        if t["k"] != "switch":
+            return False
+        S = branch_sources(b, i)
+        return any("IS_ZERO_SIZED" in str(c.get("def", "")) for c in S.consts) or any(c.endswith("mem::size_of") for c in S.calls)
+
+    sites = 0
+    for p, b in F.bodies.items():
+        for i, t in b.calls():
+            cp = callee_path(t) or ""
+            if cp not in DROP_SITES and not cp.endswith("::drop_in_place"):
+                continue
+            sites += 1
+            for (bb, s) in b.control_deps_trans(i, "all"):
+                if zst_switch(b, bb):
+                    R.violation("%s|drop-gated-on-size" % p, b, "a destructor run (%s) is control dependent on the element type being (non-)zero-sized: zero-sized types may implement Drop, "
+                                "their elements would be leaked" % cp, line=line_of(b, bb=i))
+                    R.inst("%s|drop-gated-on-size" % p, "destructor gated on IS_ZERO_SIZED", "violation", True, where(b, bb=i))
+        # construction of Some(drop fn) handed to reserve_rehash_inner / rehash_in_place
+        for i, k, s in b.stmts():
+            if s["k"] == "assign" and s["rv"]["k"] == "aggregate" and s["rv"].get("variant") == "Some" and "fn(" in str(b.local_ty(s["p"]["l"]).get("s", "")) and "Option" in str(b.local_ty(s["p"]["l"]).get("s", "")):
+                sites += 1
+                for (bb, sx) in b.control_deps_trans(i, "all"):
+                    if zst_switch(b, bb):
+                        R.violation("%s|dropfn-gated-on-size" % p, b, "the element drop function handed to the in-place rehash (used by its unwind guard) is only provided for non-zero-sized types: "
+                                    "a panicking hasher then removes not-yet-rehashed zero-sized elements from the table without dropping them", line=line_of(b, stmt=s))
+                        R.inst("%s|dropfn-gated-on-size" % p, "drop fn gated on IS_ZERO_SIZED", "violation", True, where(b, stmt=s))
+    R.info["destructor sites examined"] = sites
+    if not R.violations:
+        R.inst("all-bodies|drop-not-gated-on-size", "none of %d destructor sites / drop-fn constructions is control dependent on IS_ZERO_SIZED" % sites, "ok", True)
+    R.floor("destructor sites examined", sites, 15)
+    return R
+
+
+# --------------------------------------------------------------------- R-FORGET-WINDOW
+
+FORGET_WRAPPERS = ("core::mem::manually_drop::ManuallyDrop::new", "core::mem::forget", "core::mem::maybe_uninit::MaybeUninit::new")
+FORGET_ENDS = ("core::mem::manually_drop::ManuallyDrop::into_inner", "core::mem::manually_drop::ManuallyDrop::drop", "core::mem::manually_drop::ManuallyDrop::take")
+RESOURCE_TYPES = ("raw::RawTable", "raw::RawTableInner", "map::HashMap", "set::HashSet", "table::HashTable")
+
+
+def r_forget_window(F, V):
+    """A value that owns a table allocation (RawTable, RawTableInner, the collections) is never kept in a ManuallyDrop
+    (i.e. with its destructor switched off) while user code can run: a panic in that callback would unwind past it
+    and the block - and every element already in it - is never released, although no destructor panicked."""
+    R = Result("R-FORGET-WINDOW", F.cfg)
+    n = 0
+    for p, b in F.bodies.items():
+        for i, t in b.calls():
+            cp = callee_path(t) or ""
+            if cp != FORGET_WRAPPERS[0] or not t["args"] or t["args"][0]["k"] not in ("copy", "move"):
+                continue
+            ty = b.local_ty(t["args"][0]["p"]["l"])
+            if ty.get("k") != "adt" or ty.get("path") not in RESOURCE_TYPES:
+                continue
+            n += 1
+            key = "%s|ManuallyDrop<%s>" % (p, ty["path"].split("::")[-1])
+            ends = tuple(j for j, t2 in b.calls() if (callee_path(t2) or "") in FORGET_ENDS)
+            reach = set()
+            for s in b.nsucc[i]:
+                reach |= b.reachable_from(s, ends)
+            cbs = [(j, d) for (j, d) in V.callback_sites(b) if j in reach and not V.is_destructor_site(b, j)]
+            if cbs:
+                j, d = cbs[0]
+                R.violation(key, b, "a %s is held in a ManuallyDrop while user code can run (%s): if that callback panics the value is never dropped, so its allocation and the elements already "
+                            "stored in it are leaked although no destructor panicked" % (ty["path"], d), line=line_of(b, bb=j))
+                R.inst(key, "destructor switched off across a user callback", "violation", True, where(b, bb=i))
+            else:
+                R.inst(key, "no user callback between ManuallyDrop::new and into_inner/drop", "ok", True, where(b, bb=i))
+    R.info["ManuallyDrop<table-owning value> sites"] = n
+    R.inst("scan", "%d bodies scanned for table-owning values wrapped in ManuallyDrop" % len(F.bodies), "ok", n > 0)
+    return R
